@@ -4,7 +4,7 @@ Spec: specs/Encryption.tla (+ EncryptionGen, EncryptionTrace).
 1. TLC proves on the bounded universe of abstract containers (9 container kinds) that the reference
    pipeline satisfies: detector verdict = Encrypted(c) wherever the format documents decide,
    no yield before the reject, every MUST container ends in the encrypted error, no MUSTNOT container
-   does.  Four sensitivity runs (one per named as-built deviation) must each produce a counterexample.
+   does.  Five sensitivity runs (one per named as-built deviation) must each produce a counterexample.
 2. TLC enumerates the universe (-dump); every abstract container is built for real (own CFB / ZIP / 7z
    writers, BIFF record streams, edited ODF manifests, pypdf-encrypted PDFs, EPUB DRM files), projected
    back by independent parsers (self-check), and pushed through the direct extractor, read_file and
@@ -31,12 +31,13 @@ from ..tlc import MachineryError, run_tlc
 from ..traces import validate
 
 DEVIATIONS = ["Odf!SubstringDetector", "Zip!AnyRuntimeErrorIsEncrypted", "SevenZ!EncryptedHeaderIsInvalid",
-              "Ppt!StreamNamesOnly"]
+              "Ppt!StreamNamesOnly", "Pdf!AesFallbackOnlyAtOpen"]
 SENS_INV = {"Odf!SubstringDetector": "Inv_DetectorAgrees", "Zip!AnyRuntimeErrorIsEncrypted": "Inv_PlainNeverEncrypted",
-            "SevenZ!EncryptedHeaderIsInvalid": "Inv_EncryptedRejected", "Ppt!StreamNamesOnly": "Inv_DetectorAgrees"}
+            "SevenZ!EncryptedHeaderIsInvalid": "Inv_EncryptedRejected", "Ppt!StreamNamesOnly": "Inv_DetectorAgrees",
+            "Pdf!AesFallbackOnlyAtOpen": "Inv_EmptyPasswordExtracts"}
 ALL_KINDS = ["ooxml", "ppt", "xls", "doc", "odf", "pdf", "zip", "sevenz", "epub"]
 INVS = ["Inv_DetectorAgrees", "Inv_NoYieldBeforeReject", "Inv_EncryptedRejected", "Inv_EncryptedNeverYields",
-        "Inv_PlainNeverEncrypted"]
+        "Inv_PlainNeverEncrypted", "Inv_EmptyPasswordExtracts"]
 ENTRIES = ["direct", "read_file", "cli"]
 NWORK = 12
 
@@ -127,12 +128,12 @@ def run(ctx):
     def gen():
         return run_tlc("EncryptionGen", _cfg("GenSpec", [], bounds, kinds=kinds), scratch=ctx.scratch, workers=2,
                        timeout=900, dump=dump)
-    with ThreadPoolExecutor(6) as ex:
+    with ThreadPoolExecutor(7) as ex:
         f_th = ex.submit(theorem)
         f_gen = ex.submit(gen)
         f_sens = {d: ex.submit(sens, d) for d in DEVIATIONS}
         r = f_th.result()
-        ev.tlc("EncryptionGen: reference pipeline satisfies the 5 invariants on the bounded universe", r)
+        ev.tlc("EncryptionGen: reference pipeline satisfies the 6 invariants on the bounded universe", r)
         if r.violated:
             v.violation(what=f"Encryption.tla: {r.violated} violated on the reference design", observed=r.trace[:3])
         for d, f in f_sens.items():
@@ -143,7 +144,7 @@ def run(ctx):
         rg = f_gen.result()
     ev.tlc("EncryptionGen: enumeration of the abstract containers", rg)
     ctx.log(f"TLC: theorem {r.distinct} states {r.wall_s:.1f}s, enumeration {rg.distinct} states {rg.wall_s:.1f}s, "
-            f"4 sensitivity runs ok")
+            f"5 sensitivity runs ok")
     dpath = dump if dump.exists() else Path(str(dump) + ".dump")
     containers = sorted(((_plain(s["c"]), str(s["pc"])) for s in iter_dump(dpath)),
                         key=lambda t: json.dumps(t[0], sort_keys=True))
